@@ -603,6 +603,47 @@ fn deserialize_frame<F: Frame + serde::de::DeserializeOwned>(frame: Bytes) -> Re
     })
 }
 
+/// Verification hooks, compiled only with `--cfg iroh_verif`.
+#[cfg(all(iroh_verif, feature = "server"))]
+pub mod verif_hooks {
+    use super::*;
+
+    /// Runs the crate-private client side of the handshake.
+    pub async fn clientside(
+        io: &mut (impl BytesStreamSink + ExportKeyingMaterial),
+        secret_key: &SecretKey,
+    ) -> Result<(), Error> {
+        super::clientside(io, secret_key).await.map(|_| ())
+    }
+
+    /// The `ClientAuth` frame (tag + postcard) an honest client sends for `challenge`.
+    pub fn client_auth_frame(secret_key: &SecretKey, challenge: [u8; 16]) -> Bytes {
+        let auth = ClientAuth::new(secret_key, &ServerChallenge { challenge });
+        let mut bytes = BytesMut::new();
+        ClientAuth::TAG.write_to(&mut bytes);
+        postcard::to_io(&auth, bytes.writer())
+            .expect("serialization failed")
+            .into_inner()
+            .freeze()
+    }
+
+    /// The message signed for `challenge` (`ServerChallenge::message_to_sign`).
+    pub fn message_to_sign(challenge: [u8; 16]) -> [u8; 32] {
+        ServerChallenge { challenge }.message_to_sign()
+    }
+
+    /// The key-material auth header an honest client sends, if `io` can export keying material.
+    pub fn key_material_header(
+        secret_key: &SecretKey,
+        io: &impl ExportKeyingMaterial,
+    ) -> Option<HeaderValue> {
+        KeyMaterialClientAuth::new(secret_key, io).map(|a| a.into_header_value())
+    }
+
+    /// The TLS exporter label used by the key-material path.
+    pub const TLS_EXPORT_LABEL: &[u8] = DOMAIN_SEP_TLS_EXPORT_LABEL;
+}
+
 #[cfg(all(test, feature = "server"))]
 mod tests {
     use bytes::BytesMut;
